@@ -261,6 +261,10 @@ def translate_base_sample(path):
     if [a.arg for a in f.args.args] != ['self', 'n_samples']:
         raise P.Unsupported('Bivariate.sample signature')
     body = [s for s in f.body if not (isinstance(s, ast.Expr) and isinstance(s.value, ast.Constant))]
+    # since the F23 fix the body starts with `self.check_fit()` (NotFittedError before anything else); recorded as a generated fact
+    checks_fit = bool(body) and isinstance(body[0], ast.Expr) and ast.unparse(body[0]) == 'self.check_fit()'
+    if checks_fit:
+        body = body[1:]
     if len(body) != 5 or not isinstance(body[0], ast.If) or body[0].orelse or len(body[0].body) != 1 \
             or not isinstance(body[0].body[0], ast.Raise) or 'ValueError' not in ast.unparse(body[0].body[0]):
         raise P.Unsupported('Bivariate.sample: unexpected statement sequence / guard')
@@ -287,6 +291,7 @@ def translate_base_sample(path):
     # first draw -> d1, second draw -> d2 ; percent_point(y = a1, V = a2)
     names = {draws[0]: 'd1', draws[1]: 'd2'}
     return ('(* Bivariate.sample (decorated with @random_state): guard, first uniform draw d1, second uniform draw d2 *)\n'
+            f'Definition bivariate_sample_check_fit_first : bool := {"true" if checks_fit else "false"}.\n'
             f'Definition bivariate_sample_guard (tau : R) : bool := {guard}.\n'
             'Definition bivariate_sample (ppf : R -> R -> R) (tau : R) (d1 d2 : list R) : option (list (R * R)) :=\n'
             '  if bivariate_sample_guard tau then None\n'
